@@ -12,9 +12,13 @@
  * Each result is "start,len", "-" (no match) or "E<n>" (error).
  *
  * Protocol (one request per line, one answer line per request).  <flags>: bit 0 = IGNORECASE, bit 1 = do not ask
- * glibc (its regcomp needs exponential time on nested repeats of zero-width operands; answers are then "N"):
- *   M <flags> <notbol> <pattern>\t<subject>
- *        -> "bt=R bb=R pa=R gl=R"            or  "CERR tre=<0|1> gl=<0|1>" when a compile step fails
+ * glibc (its regcomp needs exponential time on nested repeats of zero-width operands, and it lacks some of TRE's
+ * escapes; answers are then "N"), bit 2 = an A request answers for eflags 0..3 instead of 0..1.
+ * <eflags>: bit 0 = NOTBOL, bit 1 = NOTEOL (NOTEOL: bt/bb go through hawk_tre_exec*chars with HAWK_TRE_BACKTRACKING
+ * because the interpreter's wrappers cannot pass it).
+ *   M <flags> <eflags> <pattern>\t<subject>
+ *        -> "bt=R bb=R pa=R gl=R nz=R np=R px=R pb=R vu=R vb=R" (see run_extra for the last six)
+ *           or  "CERR tre=<0|1> gl=<0|1>" when a compile step fails
  *   A <flags> <maxlen> <alphabet> <pattern>
  *        every subject over <alphabet> of length 0..maxlen (length ascending, then lexicographic in
  *        alphabet order) x notbol in {0,1}  ->  "bt=R;R;... bb=... pa=... gl=..."  (same CERR line)
@@ -35,11 +39,11 @@ static void on_alarm (int sig) { printf("HANG\n"); fflush(stdout); _exit(3); }
 
 static hawk_t* hawk;
 static hawk_rtx_t* rtx;
-static int no_glibc;
+static int no_glibc, all_eflags;
 static double slow_s = 3.0;
 
 #define MAXS 4096
-static char obuf[4][1 << 20]; static size_t olen[4];
+static char obuf[10][1 << 20]; static size_t olen[10];
 
 static void put (int k, int first, int found, long so, long len)
 {
@@ -51,10 +55,57 @@ static void put (int k, int first, int found, long so, long len)
 	else olen[k] += snprintf(p, room, "%sE%d", first ? "" : ";", -found);
 }
 
-/* run the four engines on one (subject, notbol) */
-static void run1 (hawk_tre_t* code, regex_t* gre, const char* subj, size_t n, int notbol, int first)
+static void put_tre (int k, int first, int x, hawk_tre_match_t* m)
 {
-	static hawk_uch_t ubuf[MAXS + 2]; static hawk_bch_t bbuf[MAXS + 2];
+	if (x >= 0) put(k, first, 1, (long)m[0].rm_so, (long)(m[0].rm_eo - m[0].rm_so));
+	else put(k, first, hawk_rtx_geterrnum(rtx) == HAWK_EREXNOMAT ? 0 : -(int)hawk_rtx_geterrnum(rtx) - 1000, 0, 0);
+}
+
+/* the other entry points of the library and of the interpreter, M requests only (columns 4..9):
+ *   nz / np : hawk_tre_comp() (NUL-terminated pattern) + hawk_tre_exec() (NUL-terminated subject: the `len < 0`
+ *             branches of both matchers), backtracking / parallel
+ *   px      : hawk_tre_execx() (explicit length), parallel      pb : hawk_tre_execbchars(), parallel
+ *   vu / vb : hawk_rtx_matchvalwithucs()/..bcs() with the pattern as a STRING value (dynamic regex: the value is
+ *             compiled on the fly with rtx->gbl.ignorecase) - what `s ~ "re"` and match(s, "re") reach */
+static void run_extra (hawk_tre_t* code, hawk_tre_t* zt, hawk_val_t* sval, hawk_uch_t* ubuf, hawk_bch_t* bbuf, size_t n, int eflags, int icase)
+{
+	hawk_tre_match_t m[10]; int x; int ef = ((eflags & 1) ? HAWK_TRE_NOTBOL : 0) | ((eflags & 2) ? HAWK_TRE_NOTEOL : 0);
+	hawk_ucs_t us, usub, um; hawk_bcs_t bs, bsub, bm;
+	if (zt)
+	{
+		memset(m, 0, sizeof(m)); x = hawk_tre_exec(zt, ubuf + 1, m, 10, ef | HAWK_TRE_BACKTRACKING, hawk_rtx_getgem(rtx)); put_tre(4, 1, x, m);
+		memset(m, 0, sizeof(m)); x = hawk_tre_exec(zt, ubuf + 1, m, 10, ef, hawk_rtx_getgem(rtx)); put_tre(5, 1, x, m);
+	}
+	else { put(4, 1, -2998, 0, 0); put(5, 1, -2998, 0, 0); }
+	memset(m, 0, sizeof(m)); x = hawk_tre_execx(code, ubuf + 1, n, m, 10, ef, hawk_rtx_getgem(rtx)); put_tre(6, 1, x, m);
+	memset(m, 0, sizeof(m)); x = hawk_tre_execbchars(code, bbuf + 1, n, m, 10, ef, hawk_rtx_getgem(rtx)); put_tre(7, 1, x, m);
+	if (sval && !(eflags & 2))
+	{
+		rtx->gbl.ignorecase = icase;
+		usub.ptr = ubuf + 1; usub.len = n; if (eflags & 1) { us.ptr = ubuf; us.len = n + 1; } else us = usub;
+		um.ptr = NULL; um.len = 0;
+		x = hawk_rtx_matchvalwithucs(rtx, sval, &us, &usub, &um, HAWK_NULL);
+		if (x >= 1) put(8, 1, 1, (long)(um.ptr - usub.ptr), (long)um.len); else put(8, 1, x == 0 ? 0 : -(int)hawk_rtx_geterrnum(rtx) - 1000, 0, 0);
+		bsub.ptr = bbuf + 1; bsub.len = n; if (eflags & 1) { bs.ptr = bbuf; bs.len = n + 1; } else bs = bsub;
+		bm.ptr = NULL; bm.len = 0;
+		x = hawk_rtx_matchvalwithbcs(rtx, sval, &bs, &bsub, &bm, HAWK_NULL);
+		if (x >= 1) put(9, 1, 1, (long)(bm.ptr - bsub.ptr), (long)bm.len); else put(9, 1, x == 0 ? 0 : -(int)hawk_rtx_geterrnum(rtx) - 1000, 0, 0);
+		rtx->gbl.ignorecase = 0;
+	}
+	else
+	{	/* the wrappers have no way to pass NOTEOL */
+		olen[8] += snprintf(obuf[8] + olen[8], sizeof(obuf[8]) - olen[8], "N");
+		olen[9] += snprintf(obuf[9] + olen[9], sizeof(obuf[9]) - olen[9], "N");
+	}
+}
+
+static hawk_uch_t ubuf[MAXS + 2]; static hawk_bch_t bbuf[MAXS + 2];
+
+/* run the four engines on one (subject, eflags); eflags: bit 0 = NOTBOL, bit 1 = NOTEOL */
+static void run1 (hawk_tre_t* code, regex_t* gre, const char* subj, size_t n, int eflags, int first)
+{
+	int notbol = eflags & 1, noteol = eflags & 2;
+	int ef = (notbol ? HAWK_TRE_NOTBOL : 0) | (noteol ? HAWK_TRE_NOTEOL : 0);
 	hawk_ucs_t us, usub, um; hawk_bcs_t bs, bsub, bm;
 	hawk_tre_match_t m[10]; regmatch_t gm[1];
 	size_t i; int x;
@@ -67,6 +118,14 @@ static void run1 (hawk_tre_t* code, regex_t* gre, const char* subj, size_t n, in
 	usub.ptr = ubuf + 1; usub.len = n;
 	if (notbol) { us.ptr = ubuf; us.len = n + 1; } else us = usub;
 	um.ptr = NULL; um.len = 0;
+	if (noteol)
+	{	/* the wrapper cannot pass NOTEOL: same matcher through the library call */
+		memset(m, 0, sizeof(m));
+		x = hawk_tre_execuchars(code, ubuf + 1, n, m, 10, ef | HAWK_TRE_BACKTRACKING, hawk_rtx_getgem(rtx)); put_tre(0, first, x, m);
+		memset(m, 0, sizeof(m));
+		x = hawk_tre_execbchars(code, bbuf + 1, n, m, 10, ef | HAWK_TRE_BACKTRACKING, hawk_rtx_getgem(rtx)); put_tre(1, first, x, m);
+		goto parallel;
+	}
 	x = hawk_rtx_matchrexwithucs(rtx, code, &us, &usub, &um, HAWK_NULL);
 	if (x >= 1) put(0, first, 1, (long)(um.ptr - usub.ptr), (long)um.len); else put(0, first, x == 0 ? 0 : -(int)hawk_rtx_geterrnum(rtx) - 1000, 0, 0);
 
@@ -77,16 +136,16 @@ static void run1 (hawk_tre_t* code, regex_t* gre, const char* subj, size_t n, in
 	x = hawk_rtx_matchrexwithbcs(rtx, code, &bs, &bsub, &bm, HAWK_NULL);
 	if (x >= 1) put(1, first, 1, (long)(bm.ptr - bsub.ptr), (long)bm.len); else put(1, first, x == 0 ? 0 : -(int)hawk_rtx_geterrnum(rtx) - 1000, 0, 0);
 
+parallel:
 	/* pa: direct call without HAWK_TRE_BACKTRACKING */
 	memset(m, 0, sizeof(m));
-	x = hawk_tre_execuchars(code, ubuf + 1, n, m, 10, notbol ? HAWK_TRE_NOTBOL : 0, hawk_rtx_getgem(rtx));
-	if (x >= 0) put(2, first, 1, (long)m[0].rm_so, (long)(m[0].rm_eo - m[0].rm_so));
-	else put(2, first, hawk_rtx_geterrnum(rtx) == HAWK_EREXNOMAT ? 0 : -(int)hawk_rtx_geterrnum(rtx) - 1000, 0, 0);
+	x = hawk_tre_execuchars(code, ubuf + 1, n, m, 10, ef, hawk_rtx_getgem(rtx));
+	put_tre(2, first, x, m);
 
 	/* gl: glibc */
 	if (gre)
 	{
-		x = regexec(gre, (const char*)bbuf + 1, 1, gm, notbol ? REG_NOTBOL : 0);
+		x = regexec(gre, (const char*)bbuf + 1, 1, gm, (notbol ? REG_NOTBOL : 0) | (noteol ? REG_NOTEOL : 0));
 		if (x == 0) put(3, first, 1, (long)gm[0].rm_so, (long)(gm[0].rm_eo - gm[0].rm_so));
 		else put(3, first, x == REG_NOMATCH ? 0 : -x - 2000, 0, 0);
 	}
@@ -94,9 +153,10 @@ static void run1 (hawk_tre_t* code, regex_t* gre, const char* subj, size_t n, in
 	else put(3, first, -2999, 0, 0);
 }
 
-static void flush4 (void)
+static void flush4 (int extra)
 {
-	printf("bt=%s bb=%s pa=%s gl=%s\n", obuf[0], obuf[1], obuf[2], obuf[3]);
+	if (extra) printf("bt=%s bb=%s pa=%s gl=%s nz=%s np=%s px=%s pb=%s vu=%s vb=%s\n", obuf[0], obuf[1], obuf[2], obuf[3], obuf[4], obuf[5], obuf[6], obuf[7], obuf[8], obuf[9]);
+	else printf("bt=%s bb=%s pa=%s gl=%s\n", obuf[0], obuf[1], obuf[2], obuf[3]);
 }
 
 int main (int argc, char** argv)
@@ -126,13 +186,13 @@ int main (int argc, char** argv)
 		char alpha[64];
 
 		while (L > 0 && (line[L - 1] == '\n' || line[L - 1] == '\r')) line[--L] = 0;
-		olen[0] = olen[1] = olen[2] = olen[3] = 0; obuf[0][0] = obuf[1][0] = obuf[2][0] = obuf[3][0] = 0;
+		{ int q; for (q = 0; q < 10; q++) { olen[q] = 0; obuf[q][0] = 0; } }
 		alarm(wd);
 		mode = line[0];
 		if ((mode != 'M' && mode != 'A') || line[1] != ' ') { printf("bad-op\n"); continue; }
 		p = line + 2;
 		icase = (int)strtol(p, &p, 10); if (*p != ' ') { printf("bad-op\n"); continue; } p++;
-		no_glibc = (icase >> 1) & 1; icase &= 1;
+		no_glibc = (icase >> 1) & 1; all_eflags = (icase >> 2) & 1; icase &= 1;
 		a2 = (int)strtol(p, &p, 10); if (*p != ' ') { printf("bad-op\n"); continue; } p++;
 		alpha[0] = 0;
 		if (mode == 'A')
@@ -167,8 +227,16 @@ int main (int argc, char** argv)
 
 		if (mode == 'M')
 		{
+			hawk_tre_t* zt; hawk_val_t* sval;
 			run1(use, gok == 0 ? &gre : NULL, p, strlen(p), a2, 1);
-			flush4();
+			zt = hawk_tre_open(hawk_rtx_getgem(rtx), 0);
+			if (zt && hawk_tre_comp(zt, upat, HAWK_NULL, HAWK_TRE_EXTENDED | (icase ? HAWK_TRE_IGNORECASE : 0)) <= -1) { hawk_tre_close(zt); zt = HAWK_NULL; }
+			sval = hawk_rtx_makestrvalwithoochars(rtx, upat, plen);
+			if (sval) hawk_rtx_refupval(rtx, sval);
+			run_extra(use, zt, sval, ubuf, bbuf, strlen(p), a2, icase);
+			if (sval) hawk_rtx_refdownval(rtx, sval);
+			if (zt) hawk_tre_close(zt);
+			flush4(1);
 		}
 		else
 		{
@@ -188,6 +256,11 @@ int main (int argc, char** argv)
 					subj[len] = 0;
 					run1(use, gok == 0 ? &gre : NULL, subj, (size_t)len, 0, first); first = 0;
 					run1(use, gok == 0 ? &gre : NULL, subj, (size_t)len, 1, 0);
+					if (all_eflags)
+					{
+						run1(use, gok == 0 ? &gre : NULL, subj, (size_t)len, 2, 0);
+						run1(use, gok == 0 ? &gre : NULL, subj, (size_t)len, 3, 0);
+					}
 					/* a pattern on which the matchers need exponential time (every single call still returns):
 					 * give up on the line after `slow_s` seconds of CPU; a call that never returns is a HANG */
 					if ((double)(clock() - t0) / CLOCKS_PER_SEC > slow_s) { slow = 1; break; }
@@ -198,7 +271,7 @@ int main (int argc, char** argv)
 					idx[j]++;
 				}
 			}
-			if (slow) printf("SLOW\n"); else flush4();
+			if (slow) printf("SLOW\n"); else flush4(0);
 		}
 		hawk_rtx_freerex(rtx, code, icode);
 		if (gok == 0) regfree(&gre);
